@@ -1,7 +1,7 @@
 (* C12 property theorems.  Only statements closed by [exact]; each followed by Print Assumptions.
    All are about the definitions of C12/Model.v that the correspondence harness (C12/Harness.v) runs.
    wf r = the record's field names are pairwise distinct (what every reader delivers). *)
-From Miller Require Import Base.Bytes Base.Record C12.Model C12.Proofs C12.ProofsStream.
+From Miller Require Import Base.Bytes Base.Record C12.Model C12.Proofs C12.ProofsStream C12.Regex C12.RegexLaws.
 From Coq Require Import Permutation.
 
 (* ---- cut: -f keeps exactly the named fields in record order (definitional), -x -f exactly the others, and the two
@@ -268,3 +268,69 @@ Proof.
   cbv zeta. split; [intros r0 [<-|[<-|[]]]; split; reflexivity|].
   split; [apply nodupb_NoDup; vm_compute; reflexivity|]. split; vm_compute; reflexivity.
 Qed.
+
+(* ================================================================== regex forms, for EVERY matcher / replacer
+   (the regex library is a parameter: [hit] = index of the first -f regex the field name matches, [f] = what sub / gsub
+   make of a field name; the correspondence check runs the instances at Regex.v's matcher) *)
+
+(* cut -r -f keeps exactly the fields whose name some regex matches, as they stand in the record; -x exactly the others;
+   the two are complementary (each field on exactly one side, order kept on both sides, together a permutation) *)
+Theorem C12_cut_regex_complement : forall (hit : bytes -> option nat) nrs r,
+  cut_r_gen hit nrs false false r = filter (fun kv => is_hit hit kv) r
+  /\ cut_r_gen hit nrs true false r = filter (fun kv => negb (is_hit hit kv)) r
+  /\ interleaved r (cut_r_gen hit nrs false false r) (cut_r_gen hit nrs true false r)
+  /\ Permutation (cut_r_gen hit nrs false false r ++ cut_r_gen hit nrs true false r) r.
+Proof.
+  exact (fun hit nrs r =>
+    conj (eq_trans (cut_r_gen_filter hit nrs false r) (filter_ext _ _ (fun kv => Bool.xorb_false_r (is_hit hit kv)) r))
+   (conj (eq_trans (cut_r_gen_filter hit nrs true r) (filter_ext _ _ (fun kv => Bool.xorb_true_r (is_hit hit kv)) r))
+   (conj (cut_r_complement hit nrs r) (interleaved_perm _ _ _ (cut_r_complement hit nrs r))))).
+Qed.
+Print Assumptions C12_cut_regex_complement.
+
+(* cut -r -o: the same fields (a permutation of cut -r); fields matching the same regex keep their relative order
+   (the sort by regex index is stable), groups in the order of the regexes *)
+Theorem C12_cut_regex_argorder_stable : forall (hit : bytes -> option nat) nrs,
+  (forall s j, hit s = Some j -> j < nrs) -> forall c r,
+  Permutation (cut_r_gen hit nrs c true r) (cut_r_gen hit nrs c false r)
+  /\ (forall i, filter (fun kv => Nat.eqb i (hit_idx hit kv)) (cut_r_gen hit nrs c true r)
+                = filter (fun kv => Nat.eqb i (hit_idx hit kv)) (cut_r_gen hit nrs c false r))
+  /\ cut_r_gen hit nrs c true r
+     = flat_map (fun i => filter (fun kv => Nat.eqb i (hit_idx hit kv)) (cut_r_gen hit nrs c false r)) (seq 0 (Nat.max 1 nrs)).
+Proof. exact cut_r_o_spec. Qed.
+Print Assumptions C12_cut_regex_argorder_stable.
+
+(* the model run against mlr is that instance, and its matcher meets the index bound *)
+Theorem C12_cut_regex_model_is_instance : forall rs c o r,
+  cut_r rs c o r = cut_r_gen (first_match rs 0) (List.length rs) c o r
+  /\ (forall s j, first_match rs 0 s = Some j -> j < List.length rs).
+Proof. exact (fun rs c o r => conj (cut_r_is_gen rs c o r) (fun s j H => first_match_bound rs 0 s j H)). Qed.
+Print Assumptions C12_cut_regex_model_is_instance.
+
+(* rename -r / -g, one "regex,replacement" pair, any replacer f: a field whose name f leaves alone and on which no renamed
+   field lands keeps its name, its value and its place among such fields; a replacer that changes no name of the record
+   changes nothing; several pairs are one walk after the other *)
+Theorem C12_rename_regex_bystanders : forall (f : bytes -> bytes) r,
+  filter (rr_bystander f r) (rename_walk_f (List.length r) f [] r) = filter (rr_bystander f r) r
+  /\ ((forall k, In k (keys r) -> f k = k) -> rename_walk_f (List.length r) f [] r = r).
+Proof. exact (fun f r => conj (rename_f_bystanders f r) (rename_f_no_match f r)). Qed.
+Print Assumptions C12_rename_regex_bystanders.
+
+Theorem C12_rename_regex_model_is_instance : forall ci re_ rep g r specs1 specs2,
+  rename_r [(ci, re_, rep)] g r
+  = rename_walk_f (List.length r)
+      (if g then (fun s => gsub_lit (S (List.length s)) ci re_ (expand rep [] []) s true) else sub1 ci re_ rep) [] r
+  /\ rename_r (specs1 ++ specs2) g r = rename_r specs2 g (rename_r specs1 g r).
+Proof. exact (fun ci re_ rep g r specs1 specs2 => conj (rename_r_single_is_walk ci re_ rep g r) (rename_r_app specs1 specs2 g r)). Qed.
+Print Assumptions C12_rename_regex_model_is_instance.
+
+Example C12_nonvacuous_regex :
+  let r := [(B "x1", B "a"); (B "y1", B "b"); (B "x2", B "c"); (B "z", B "d"); (B "y2", B "e")] in
+  let rs := [(false, Seq Bol (Chr "y")); (false, Seq Bol (Chr "x"))] in
+  cut_r rs false false r = [(B "x1", B "a"); (B "y1", B "b"); (B "x2", B "c"); (B "y2", B "e")]
+  /\ cut_r rs true false r = [(B "z", B "d")]
+  /\ cut_r rs false true r = [(B "y1", B "b"); (B "y2", B "e"); (B "x1", B "a"); (B "x2", B "c")]
+  /\ rename_r [(false, Seq Bol (Chr "x"), [inl (B "w")])] false r
+     = [(B "w1", B "a"); (B "y1", B "b"); (B "w2", B "c"); (B "z", B "d"); (B "y2", B "e")]
+  /\ filter (rr_bystander (sub1 false (Seq Bol (Chr "x")) [inl (B "w")]) r) r = [(B "y1", B "b"); (B "z", B "d"); (B "y2", B "e")].
+Proof. vm_compute. repeat split; reflexivity. Qed.
